@@ -867,7 +867,7 @@ func loadAddrManager(amBucket db.Bucket, pubPassphrase []byte, net *config.Param
 	}
 
 	managedAddresses := make(map[string]*ManagedAddress)
-	index := make(map[uint32]string)
+	index := make(map[addrIndexKey]string)
 	pubkeyBucket := amBucket.Bucket(pubKeyBucket)
 	if pubkeyBucket != nil {
 		pks, err := fetchEncryptedPubKey(pubkeyBucket)
@@ -893,7 +893,7 @@ func loadAddrManager(amBucket db.Bucket, pubPassphrase []byte, net *config.Param
 				return nil, err
 			}
 			managedAddresses[managedAddress.address] = managedAddress
-			index[pkp.index] = managedAddress.address
+			index[addrIndexKey{pkp.branch, pkp.index}] = managedAddress.address
 		}
 	}
 
